@@ -386,7 +386,44 @@ class Run:
         open(p, "w").write(blob)
         return p
 
+    def coqchk(self, timeout=2400):
+        """Thorough tier: re-check the compiled property files and the correspondence runner of this property (and all they
+        depend on, standard library included) with the independent checker coqchk, and record the axioms it reports.
+        A coqchk error is a broken obligation; a run that was killed / timed out without an error is only noted."""
+        if self.pid == "C17" or not self.obligations or any(not o["ok"] for o in self.obligations):
+            return          # C17 runs its own coqchk step; nothing to re-check when the build itself is broken
+        import glob
+        mods = []
+        for d in ("Props", "Corr"):
+            for f in sorted(glob.glob(os.path.join(COQ, d, self.pid + "*.v"))):
+                if os.path.exists(f + "o"):
+                    mods.append("DV.%s.%s" % (d, os.path.basename(f)[:-2]))
+        if not mods:
+            return
+        t0 = time.time()
+        with BuildLock():       # nothing may rewrite .vo files while they are being read
+            p = subprocess.run(["timeout", str(timeout), "coqchk", "-silent", "-o", "-Q", COQ, "DV"] + mods,
+                               stdout=subprocess.PIPE, stderr=subprocess.STDOUT, text=True)
+        out = p.stdout
+        m = re.search(r"\* Axioms:(.*?)\* Constants/Inductives relying on type-in-type:(.*?)\* Constants/Inductives relying on unsafe"
+                      r".*?:(.*?)\* Inductives whose positivity is assumed:(.*)", out, re.S)
+        info = {"rc": p.returncode, "seconds": round(time.time() - t0, 1), "modules": mods}
+        if m:
+            info["axioms"] = m.group(1).split()
+            info["type_in_type"], info["unsafe_fixpoints"], info["assumed_positivity"] = (m.group(i).strip() for i in (2, 3, 4))
+        self.extra_cov["coqchk"] = info
+        self.checker_cmd = (self.checker_cmd + " ; " if self.checker_cmd else "") + "coqchk -silent -o -Q coq DV " + " ".join(mods)
+        if p.returncode not in (0, 124, 137, -9) or (m and any(info[k] != "<none>" for k in ("type_in_type", "unsafe_fixpoints", "assumed_positivity"))):
+            self.broken.append({"kind": "obligation_broken", "where": ["coqchk " + " ".join(mods)], "log": out[-2000:]})
+        elif p.returncode != 0:
+            self.notes.append("coqchk did not complete (killed / timed out without an error); not a verdict")
+
     def finish(self):
+        if self.tier == "thorough":
+            try:
+                self.coqchk()
+            except Exception:
+                self.notes.append("coqchk step raised: " + traceback.format_exc()[-800:])
         viol_lines = []
         broke = bool(self.broken) or bool(self.disagreements)
         if broke and not self.oracle_viol and self.search_fn is not None:
